@@ -32,6 +32,15 @@ def gen(tier, rng):
             t0 = 1700000000 * P.NS
             for var in ("sync", "async:1"):
                 out.append((P.line(var, iv, None, None, ex, True, [t0, t0, t0 + ex * P.NS, t0 + ex * P.NS + 1], ["pending", "pending", "success"]), "first-poll"))
+    # long lifetimes are used in full: polling continues at every instant before start + expires_in (a day, a week, a
+    # year, 2^31 and 2^32 seconds after the start) and stops right after it
+    for ex in (86400, 86401, 172800, 604800, 31536000, 2 ** 31 + 10, 2 ** 32 + 10, 10 ** 10):
+        t0 = 1700000000 * P.NS
+        for off in (ex // 2, ex - 1, 86400 + 1, 31536000 + 1, 2 ** 31 + 1, 2 ** 32 + 1):
+            if 0 < off < ex:
+                for var in ("sync", "async:1"):
+                    late = t0 + off * P.NS
+                    out.append((P.line(var, "5", None, None, ex, True, [t0, late, late, t0 + ex * P.NS, t0 + ex * P.NS + 1], ["pending", "pending", "pending", "success"]), "long-lifetime"))
     return out
 
 
